@@ -35,7 +35,11 @@ RULE = ("an enable mask is 18 bits (bias x3, bias_walk x3, noise x3, scale_misal
         "operations (output_matrix / update / get / state / correct / wrong-length update / reset); "
         "thorough: ALL 2^18 masks (structure + 4 operations) + 20000 random masks with full operation "
         "sequences; simulator cases: random transform/bias/noise/walk, both sensor types, 1-6 samples "
-        "with irregular steps from {1/16,1/4,1,4} (exact square roots), recorded random streams; a "
+        "with irregular steps from {1/16,1/4,1,4} (exact square roots), recorded random streams; 30% of "
+        "them (and a fixed corpus, and one of the two runs of every direct statement test) use magnitudes "
+        "spanning decades: scale/misalignment errors 2^-18..2^-30 (pure scale factors with zero "
+        "misalignment included), biases 2^-40, 2^-3, 2^6, all exactly representable; groups of 2-3 model "
+        "objects alive at once are updated interleaved without reset_estimates; a "
         "case is distinct by (mask, values) resp. by its full input tuple")
 
 XYZ = 'xyz'
@@ -301,10 +305,30 @@ def bcase_literal(args, rng, light, stats, problems):
 # ----------------------------------------------------------------------------------------------
 # simulator cases
 
-def gen_sim(rng):
-    E = [rng.randint(-4, 4) if rng.random() < 0.5 else 0 for _ in range(9)]
-    T16 = [E[k] + (16 if k in (0, 4, 8) else 0) for k in range(9)]
-    b8 = [rng.randint(-16, 16) if rng.random() < 0.6 else 0 for _ in range(3)]
+P30, P40 = 2 ** 30, 2 ** 40
+
+
+def gen_sim(rng, decades=None):
+    """decades=True: ppm-level scale/misalignment errors 2^-18 .. 2^-30 (transform over 2^30), biases
+    2^-40 / 2^-3 / 2^6 (over 2^40): exactly representable, far below np.allclose-style tolerances."""
+    if decades is None:
+        decades = rng.random() < 0.3
+    if decades:
+        Tden, bden = P30, P40
+        pure_scale = rng.random() < 0.6                       # zero misalignment
+        T = []
+        for k in range(9):
+            diag = k in (0, 4, 8)
+            e = 0
+            if (diag and rng.random() < 0.8) or (not diag and not pure_scale and rng.random() < 0.4):
+                e = rng.choice([-1, 1]) * 2 ** (30 - rng.randint(18, 30))
+            T.append(e + (P30 if diag else 0))
+        b = [rng.choice([0, 1, -1, 2 ** 46, -2 ** 46, 2 ** 37]) for _ in range(3)]
+    else:
+        Tden, bden = 16, 8
+        E = [rng.randint(-4, 4) if rng.random() < 0.5 else 0 for _ in range(9)]
+        T = [E[k] + (16 if k in (0, 4, 8) else 0) for k in range(9)]
+        b = [rng.randint(-16, 16) if rng.random() < 0.6 else 0 for _ in range(3)]
     n4 = [rng.randint(1, 6) if rng.random() < 0.6 else 0 for _ in range(3)]
     w4 = [rng.randint(1, 6) if rng.random() < 0.5 else 0 for _ in range(3)]
     ty = rng.choice(['rate', 'increment'])
@@ -319,7 +343,24 @@ def gen_sim(rng):
     zn = rng.random() < 0.15
     W = [[0 if zw else rng.randint(-8, 8) for _ in range(3)] for _ in range(n)]
     N = [[0 if zn else rng.randint(-8, 8) for _ in range(3)] for _ in range(n)]
-    return dict(T16=T16, b8=b8, n4=n4, w4=w4, ty=ty, ts16=ts16, R8=R, W8=W, N8=N)
+    return dict(T16=T, Tden=Tden, b8=b, bden=bden, n4=n4, w4=w4, ty=ty, ts16=ts16, R8=R, W8=W, N8=N)
+
+
+def fixed_sim_cases():
+    """pure scale-factor errors of a few ppm and below, zero misalignment, tiny and large biases, both types"""
+    out = []
+    for ty in ('rate', 'increment'):
+        for es, b in (([18, 24, 30], [1, 0, 2 ** 46]), ([20, 20, 20], [0, 0, 0]), ([30, 29, 18], [-1, 2 ** 37, -2 ** 46])):
+            T = [0] * 9
+            for k, e in zip((0, 4, 8), es):
+                T[k] = P30 + (2 ** (30 - e) if k != 4 else -2 ** (30 - e))
+            for nz in (False, True):
+                out.append(dict(T16=T, Tden=P30, b8=b, bden=P40, n4=[2, 0, 3] if nz else [0, 0, 0],
+                                w4=[1, 0, 0] if nz else [0, 0, 0], ty=ty, ts16=[-3, 1, 2, 18, 82],
+                                R8=[[8, -16, 3], [1, 2, 4], [-7, 16, 0], [16, 16, 16], [5, -9, 13]],
+                                W8=[[3, 1, -2]] * 5 if nz else [[0, 0, 0]] * 5,
+                                N8=[[-4, 2, 8]] * 5 if nz else [[0, 0, 0]] * 5))
+    return out
 
 
 def run_sim(c):
@@ -327,7 +368,7 @@ def run_sim(c):
     from pyins.inertial_sensor import Parameters
     n = len(c['ts16'])
     rs = RS([np.array(c['W8']).reshape(n, 3) / 8.0, np.array(c['N8']).reshape(n, 3) / 8.0])
-    p = Parameters(np.array(c['T16']).reshape(3, 3) / 16.0, np.array(c['b8']) / 8.0,
+    p = Parameters(np.array(c['T16']).reshape(3, 3) / float(c.get('Tden', 16)), np.array(c['b8']) / float(c.get('bden', 8)),
                    np.array(c['n4']) / 4.0, np.array(c['w4']) / 4.0, rng=rs)
     ts = np.array(c['ts16']) / 16.0
     df = pd.DataFrame(np.array(c['R8']).reshape(n, 3) / 8.0, index=ts, columns=GYRO)
@@ -347,7 +388,8 @@ def run_sim(c):
 def scase_literal(c):
     res = run_sim(c)
     n = len(c['ts16'])
-    p = "(mk_params %s %s %s %s)" % (c_dy33(16, c['T16']), c_dy3(8, c['b8']), c_dy3(4, c['n4']), c_dy3(4, c['w4']))
+    p = "(mk_params %s %s %s %s)" % (c_dy33(c.get('Tden', 16), c['T16']), c_dy3(c.get('bden', 8), c['b8']),
+                                     c_dy3(4, c['n4']), c_dy3(4, c['w4']))
     ty = 'Rate' if c['ty'] == 'rate' else 'Increment'
     v3l = lambda den, rows: "[%s]" % "; ".join(c_dy3(den, r) for r in rows)
     head = "%s %s %s %s %s %s" % (p, ty, c_dyl(16, c['ts16']), v3l(8, c['R8']), v3l(8, c['W8']), v3l(8, c['N8']))
@@ -464,68 +506,78 @@ def direct_checks(args, seed, full=True):
         bad('layout', "J/v do not match the enabled noise axes")
     if fails or not full:
         return fails
-    # ---- simulator with exactly the enabled terms
-    E = np.zeros((3, 3))
-    bv = np.zeros(3)
-    for o in range(3):
-        for i in range(3):
-            if S[o, i] > 0:
-                E[o, i] = rng.choice([-4, -3, -2, -1, 1, 2, 3, 4]) / 16.0
-    for a in range(3):
-        if b[a] > 0:
-            bv[a] = rng.choice([-9, -5, -2, -1, 1, 3, 4, 11]) / 8.0
-    T = np.eye(3) + E
-    x = np.array([bv[a] for a in range(3) if b[a] > 0] +
-                 [E[o, i] for o in range(3) for i in range(3) if S[o, i] > 0])
+    # ---- simulator with exactly the enabled terms; two magnitude flavours:
+    #   'decades'  : ppm-level scale/misalignment 2^-18 .. 2^-30, biases 2^-40 / 2^6 (all exactly representable;
+    #                a simulator that treats "almost identity" as identity must fail the exact comparisons)
+    #   'ordinary' : entries k/16, biases k/8
     ns_ = np.maximum(n, 0)
     ws_ = np.maximum(w, 0)
-    m = 4
-    ts = np.cumsum([rng.randint(-16, 16) / 16.0] + [rng.choice(DT16) / 16.0 for _ in range(m - 1)])
-    dtu = np.diff(ts)
-    dtu = np.hstack([dtu[0], dtu])
-    R = np.array([[rng.randint(-16, 16) / 8.0 for _ in range(3)] for _ in range(m)])
-    df = pd.DataFrame(R, index=ts, columns=GYRO)
-    Z = np.zeros((m, 3))
+    for flavour in ('decades', 'ordinary'):
+        E = np.zeros((3, 3))
+        bv = np.zeros(3)
+        for o in range(3):
+            for i in range(3):
+                if S[o, i] > 0:
+                    if flavour == 'decades':
+                        E[o, i] = rng.choice([-1.0, 1.0]) * 2.0 ** -rng.randint(18, 30)
+                    else:
+                        E[o, i] = rng.choice([-4, -3, -2, -1, 1, 2, 3, 4]) / 16.0
+        for a in range(3):
+            if b[a] > 0:
+                if flavour == 'decades':
+                    bv[a] = rng.choice([-1.0, 1.0]) * rng.choice([2.0 ** -40, 2.0 ** -40, 2.0 ** 6, 2.0 ** -3])
+                else:
+                    bv[a] = rng.choice([-9, -5, -2, -1, 1, 3, 4, 11]) / 8.0
+        T = np.eye(3) + E
+        x = np.array([bv[a] for a in range(3) if b[a] > 0] +
+                     [E[o, i] for o in range(3) for i in range(3) if S[o, i] > 0])
+        m = 4
+        ts = np.cumsum([rng.randint(-16, 16) / 16.0] + [rng.choice(DT16) / 16.0 for _ in range(m - 1)])
+        dtu = np.diff(ts)
+        dtu = np.hstack([dtu[0], dtu])
+        R = np.array([[rng.randint(-16, 16) / 8.0 for _ in range(3)] for _ in range(m)])
+        df = pd.DataFrame(R, index=ts, columns=GYRO)
+        Z = np.zeros((m, 3))
 
-    def sim(ty, W=Z, N=Z):
-        p = Parameters(T, bv, ns_, ws_, rng=RS([W, N]))
-        return p.apply(df, ty), p.data_frame
-    out_r, tab = sim('rate')
-    out_i, tab_i = sim('increment')
-    # names
-    if list(tab.columns) != list(em.states) or list(tab_i.columns) != list(em.states):
-        bad('names', f"data_frame columns {list(tab.columns)} != states {list(em.states)}")
-        return fails
-    if ns and not np.array_equal(tab.values[0], x):
-        bad('names', f"data_frame row {tab.values[0]} != parameters in state order {x}")
-    # H x = error
-    err_r = out_r.values - R
-    err_i = out_i.values - R
-    for k in range(m):
-        hr = np.asarray(em.output_matrix(R[k])) @ x
-        hi = (np.asarray(em.output_matrix(R[k] / dtu[k])) @ x) * dtu[k]
-        if not np.array_equal(hr, err_r[k]):
-            bad('output_matrix_is_error', f"rate row {k}: H x = {hr}, error = {err_r[k]}")
-        if not np.array_equal(hi, err_i[k]):
-            bad('output_matrix_is_error', f"increment row {k}: H x dt = {hi}, error = {err_i[k]}")
-    if em.scale_misal_modelled:
-        Hs = np.asarray(em.output_matrix(R))
-        if Hs.shape != (m, 3, ns) or not np.array_equal(np.einsum('kij,j->ki', Hs, x), err_r):
-            bad('output_matrix_is_error', "stacked output_matrix(readings) @ x != error")
-    # undo
-    em.reset_estimates()
-    em.update_estimates(x)
-    est = em.get_estimates()
-    if list(est.index) != list(em.states) or not np.array_equal(est.values, x):
-        bad('get_after_update', f"get_estimates {est.values} != {x}")
-    if not np.array_equal(em.transform, T) or not np.array_equal(em.bias, bv):
-        bad('correct_undoes_apply', "estimates differ from the simulated parameters after one update")
-    cor = em.correct_increments(dtu, out_i)
-    if np.abs(cor.values - R).max() > 1e-9:
-        bad('correct_undoes_apply', f"max |corrected - true| = {np.abs(cor.values - R).max()}")
-    cor1 = em.correct_increments(dtu[1], out_i.iloc[1])
-    if np.abs(cor1.values - R[1]).max() > 1e-9:
-        bad('correct_undoes_apply', "Series form does not undo the error")
+        def sim(ty, W=Z, N=Z):
+            p = Parameters(T, bv, ns_, ws_, rng=RS([W, N]))
+            return p.apply(df, ty), p.data_frame
+        out_r, tab = sim('rate')
+        out_i, tab_i = sim('increment')
+        # names
+        if list(tab.columns) != list(em.states) or list(tab_i.columns) != list(em.states):
+            bad('names', f"[{flavour}] data_frame columns {list(tab.columns)} != states {list(em.states)}")
+            return fails
+        if ns and not np.array_equal(tab.values[0], x):
+            bad('names', f"data_frame row {tab.values[0]} != parameters in state order {x}")
+        # H x = error
+        err_r = out_r.values - R
+        err_i = out_i.values - R
+        for k in range(m):
+            hr = np.asarray(em.output_matrix(R[k])) @ x
+            hi = (np.asarray(em.output_matrix(R[k] / dtu[k])) @ x) * dtu[k]
+            if not np.array_equal(hr, err_r[k]):
+                bad('output_matrix_is_error', f"[{flavour}] rate row {k}: H x = {hr}, error = {err_r[k]}")
+            if not np.array_equal(hi, err_i[k]):
+                bad('output_matrix_is_error', f"[{flavour}] increment row {k}: H x dt = {hi}, error = {err_i[k]}")
+        if em.scale_misal_modelled:
+            Hs = np.asarray(em.output_matrix(R))
+            if Hs.shape != (m, 3, ns) or not np.array_equal(np.einsum('kij,j->ki', Hs, x), err_r):
+                bad('output_matrix_is_error', "stacked output_matrix(readings) @ x != error")
+        # undo
+        em.reset_estimates()
+        em.update_estimates(x)
+        est = em.get_estimates()
+        if list(est.index) != list(em.states) or not np.array_equal(est.values, x):
+            bad('get_after_update', f"get_estimates {est.values} != {x}")
+        if not np.array_equal(em.transform, T) or not np.array_equal(em.bias, bv):
+            bad('correct_undoes_apply', "estimates differ from the simulated parameters after one update")
+        cor = em.correct_increments(dtu, out_i)
+        if np.abs(cor.values - R).max() > 1e-9:
+            bad('correct_undoes_apply', f"[{flavour}] max |corrected - true| = {np.abs(cor.values - R).max()}")
+        cor1 = em.correct_increments(dtu[1], out_i.iloc[1])
+        if np.abs(cor1.values - R[1]).max() > 1e-9:
+            bad('correct_undoes_apply', "Series form does not undo the error")
     # accumulate
     x1 = np.array([rng.randint(-6, 6) / 16.0 for _ in range(ns)])
     x2 = np.array([rng.randint(-6, 6) / 16.0 for _ in range(ns)])
@@ -597,6 +649,65 @@ def direct_checks(args, seed, full=True):
         pf.apply(df, 'rate')
         if list(pf.data_frame.columns) != list(em.states):
             bad('names', f"from_EstimationModel: data_frame columns {list(pf.data_frame.columns)} != states {list(em.states)}")
+    return fails
+
+
+def multi_model_checks(args_list, seed):
+    """Several EstimationModel objects alive at once, updated WITHOUT a prior reset_estimates, interleaved;
+    a model built after another one was updated.  Every model's estimates must be its OWN updates only."""
+    from pyins.inertial_sensor import EstimationModel
+    rng = random.Random(seed)
+    fails = []
+
+    def build(a):
+        b, n, w, S = arrays_of(a)
+        return EstimationModel(bias_sd=b, noise=n, bias_walk=w, scale_misal_sd=S)
+
+    def fresh_ok(em, who):
+        if np.any(em.get_estimates().values != 0) or not np.array_equal(em.transform, np.eye(3)) or np.any(em.bias != 0):
+            fails.append(('estimates_independent', f"{who}: a newly built model does not start from zero estimates: "
+                          f"get_estimates={em.get_estimates().values.tolist()}, bias={np.asarray(em.bias).tolist()}"))
+            return False
+        return True
+    ems, sums = [], []
+    # build the first, update it, then build the others (must start fresh), then interleave updates
+    for k, a in enumerate(args_list):
+        em = build(a)
+        if not fresh_ok(em, f"model {k} (built after {k} other model(s) were updated)"):
+            return fails
+        x = np.array([rng.randint(-6, 6) / 16.0 for _ in range(em.n_states)])
+        em.update_estimates(x)
+        ems.append(em)
+        sums.append(x)
+    for rnd in range(2):
+        for k in rng.sample(range(len(ems)), len(ems)):
+            x = np.array([rng.randint(-6, 6) / 16.0 for _ in range(ems[k].n_states)])
+            ems[k].update_estimates(x)
+            sums[k] = sums[k] + x
+    inc = pd.Series(np.array([rng.randint(-32, 32) / 8.0 for _ in range(3)]), index=GYRO)
+    for k, (em, a) in enumerate(zip(ems, args_list)):
+        g = em.get_estimates().values
+        if not np.array_equal(g, sums[k]):
+            fails.append(('estimates_independent', f"model {k}: get_estimates {g.tolist()} != sum of ITS updates "
+                          f"{sums[k].tolist()} ({len(ems)} models updated interleaved, no reset_estimates)"))
+            continue
+        b, _, _, S = arrays_of(a)
+        names = oracle_states(b, S)
+        T = np.eye(3)
+        bv = np.zeros(3)
+        for nm, val in zip(names, sums[k]):
+            if nm.startswith('bias_'):
+                bv[XYZ.index(nm[5])] = val
+            else:
+                T[XYZ.index(nm[3]), XYZ.index(nm[4])] += val
+        if abs(np.linalg.det(T)) >= 0.125:
+            want = np.linalg.solve(T, inc.values - bv * 0.25)
+            got = em.correct_increments(0.25, inc).values
+            if np.abs(got - want).max() > 1e-9:
+                fails.append(('estimates_independent', f"model {k}: correct_increments uses estimates that are not its own: "
+                              f"{got.tolist()} != {want.tolist()}"))
+    late = build(args_list[0])
+    fresh_ok(late, "a model built after all others were updated")
     return fails
 
 
@@ -735,11 +846,22 @@ def corpus_checks():
 # ----------------------------------------------------------------------------------------------
 # jobs (run in worker processes)
 
+def _multi(res, group, mseed):
+    try:
+        fl = multi_model_checks(group, mseed)
+    except Exception:
+        fl = [('harness', traceback.format_exc()[-1500:])]
+    res['stats']['multi_model'] = res['stats'].get('multi_model', 0) + 1
+    for clause, msg in fl[:2]:
+        res['violations'].append((f"{clause}: {msg}", dict(kind='multi', args_list=list(group), seed=mseed, clause=clause)))
+
+
 def job_b(job):
     rng = random.Random(job['seed'])
     res = dict(kind='b', idx=job['idx'], n=0, broken=[], violations=[], keys=[], samples=[], stats={}, hist={})
     lits, metas = [], []
     problems = []
+    group = []
     for mask in job['masks']:
         args = gen_args(rng, mask, negatives=job.get('negatives', True))
         pr = []
@@ -761,6 +883,11 @@ def job_b(job):
             fl = [('harness', traceback.format_exc()[-1500:])]
         for clause, msg in fl[:3]:
             res['violations'].append((f"{clause}: {msg}", dict(kind='direct', args=args, seed=dseed, clause=clause)))
+        if not summary.get('raised'):
+            group.append(args)
+            if len(group) == 3 or (job['light'] and len(group) == 2):
+                _multi(res, group, rng.getrandbits(32))
+                group = []
     for args, p in problems[:5]:
         res['broken'].append((f"unrepresentable: {p}", dict(args=args)))
     res['n'] = len(lits)
@@ -784,8 +911,7 @@ def job_s(job):
     rng = random.Random(job['seed'])
     res = dict(kind='s', idx=job['idx'], n=0, broken=[], violations=[], keys=[], samples=[], stats={}, hist={})
     lits, metas = [], []
-    for _ in range(job['count']):
-        c = gen_sim(rng)
+    for c in fixed_sim_cases() + [gen_sim(rng) for _ in range(job['count'])]:
         try:
             lit, summary = scase_literal(c)
         except Exception:
@@ -793,7 +919,7 @@ def job_s(job):
             continue
         lits.append(lit)
         metas.append((c, summary))
-        key = f"{c['ty']}/n={len(c['ts16'])}"
+        key = f"{c['ty']}/n={len(c['ts16'])}/{'decades' if c.get('Tden', 16) != 16 else 'ordinary'}"
         res['hist'][key] = res['hist'].get(key, 0) + 1
         for a, bq in zip(c['ts16'], c['ts16'][1:]):
             res['stats'][f"dt={Fraction(bq - a, 16)}"] = res['stats'].get(f"dt={Fraction(bq - a, 16)}", 0) + 1
@@ -805,7 +931,7 @@ def job_s(job):
         except Exception:
             res['broken'].append(('from_EstimationModel raised / inexact', dict(case=c, tb=traceback.format_exc()[-1500:])))
     res['n'] = len(lits) + len(flits)
-    res['keys'] = [('s', tuple(c['T16']), tuple(c['b8']), tuple(c['n4']), tuple(c['w4']), c['ty'], tuple(c['ts16']),
+    res['keys'] = [('s', c.get('Tden', 16), tuple(c['T16']), tuple(c['b8']), tuple(c['n4']), tuple(c['w4']), c['ty'], tuple(c['ts16']),
                     tuple(map(tuple, c['R8'])), tuple(map(tuple, c['W8'])), tuple(map(tuple, c['N8']))) for c, _ in metas] + \
                   [('f', c['args']['mask'], tuple(c['zT4']), tuple(c['zb4'])) for c in fcs]
     res['samples'] = [dict(case=c, result=s) for c, s in metas[:1]]
@@ -833,6 +959,7 @@ def job_d(job):
     """direct statements only (falsifier)"""
     rng = random.Random(job['seed'])
     res = dict(kind='d', idx=job['idx'], n=0, broken=[], violations=[], keys=[], samples=[], stats={}, hist={})
+    group = []
     for mask in job['masks']:
         args = gen_args(rng, mask)
         dseed = rng.getrandbits(32)
@@ -843,6 +970,11 @@ def job_d(job):
         res['n'] += 1
         for clause, msg in fl[:2]:
             res['violations'].append((f"{clause}: {msg}", dict(kind='direct', args=args, seed=dseed, clause=clause)))
+        if construct(args) is not None:
+            group.append(args)
+            if len(group) == 3:
+                _multi(res, group, rng.getrandbits(32))
+                group = []
     return res
 
 
@@ -1003,6 +1135,13 @@ def replay(obj):
     print("what:", obj.get('what'))
     if rep.get('kind') == 'imu':
         fl = imu_check(rep['seed'])
+    elif rep.get('kind') == 'multi':
+        for k, a in enumerate(rep['args_list']):
+            b, n, w, S = arrays_of(a)
+            print("model %d: EstimationModel(bias_sd=%s, noise=%s, bias_walk=%s, scale_misal_sd=%s)" % (
+                k, b.tolist(), n.tolist(), w.tolist(), S.tolist()))
+        print("model (Coq): estimates are a value of type `est` threaded through update/get; two models cannot share it")
+        fl = multi_model_checks(rep['args_list'], rep['seed'])
     elif rep.get('kind') == 'direct':
         args = rep['args']
         b, n, w, S = arrays_of(args)
